@@ -50,6 +50,7 @@ func checkC15(c *Ctx) {
 	c.Rule("C15.R3", "atomic path: the type assertion to BatchEnqueuer dominates the batch call and the per-item fallback is only on its false edge; both default backends implement BatchEnqueuer; SQLite EnqueueBatch is one transaction and memory EnqueueBatch has no error return after a mutation")
 	c.Rule("C15.R4", "shape: the published envelope literal sets State=queued, the resolved route and a single target")
 	c.Rule("C15.R5", "policy wiring: each per-route publish hook of the admin server returns exactly the CompiledRoute flag of its name, and each scalar publish-policy field is copied from the compiled policy field of its name")
+	c.Rule("C15.R6", "resolves to an allowed target: the value a publish target resolver reports as resolved is an element of the allowed list, or the caller's value on a path that compared it == to an element")
 	hs := publishHandlers(p)
 	c.Floor("C15.R1", "publish_handlers", len(hs), 2)
 	var builder *ssa.Function
@@ -259,6 +260,7 @@ func checkC15(c *Ctx) {
 		checkEnvelopeShape(c, "C15.R4", builder)
 	}
 	checkPublishPolicyWiring(c, "C15.R5")
+	checkResolvedTargetAllowed(c, "C15.R6")
 }
 
 // iterMustPassGeneric: within one iteration of the loop with header h, site is reachable only through `through`.
